@@ -132,7 +132,10 @@ fn shapes(max_chain: usize) -> Vec<Shape> {
     let refs = referents();
     let hs = holders();
     let mut out = Vec::new();
-    let roots = ["global", "local", "closed_variable"];
+    // the last three roots need one interpreter and two runs: the referent is a variable of a frame that an
+    // uncaught error discarded in the first run (the frame that threw; a main-fiber frame, or a fiber,
+    // that was waiting for a fiber that threw), reached in the second run through a closure that escaped
+    let roots = ["global", "local", "closed_variable", "variable_of_frame_discarded_by_uncaught_error", "variable_of_frame_waiting_for_failed_fiber", "variable_of_fiber_waiting_for_failed_fiber"];
     for r in &refs {
         // chains of holders, innermost last
         let mut chains: Vec<Vec<usize>> = vec![vec![]];
@@ -178,9 +181,14 @@ fn shapes(max_chain: usize) -> Vec<Shape> {
                 for hi in chain.iter().rev() {
                     build = hs[*hi].wrap.replace("@", &build);
                 }
+                let two_runs = root.starts_with("variable_of_");
+                // (only chains up to length 1 for the two-run roots)
+                if two_runs && chain.len() > 1 {
+                    continue;
+                }
                 let mut access = match root {
-                    "closed_variable" => "root()".to_string(),
-                    _ => "root".to_string(),
+                    "global" | "local" => "root".to_string(),
+                    _ => "root()".to_string(),
                 };
                 for hi in &chain {
                     access = hs[*hi].access.replace("@", &access);
@@ -191,7 +199,19 @@ fn shapes(max_chain: usize) -> Vec<Shape> {
                     _ => format!("var root = {};", build),
                 };
                 let body = format!("{}\n  garbage();\n  var junk = [[1], (2, 3), {{\"a\": 1}}, \"p\" + \"q\"];\n  var x = {};\n  garbage();\n  {}\n  print(\"done\");\n", root_decl, access, touch);
-                let source = if root == "global" { format!("{}\n{}", PRELUDE, body) } else { format!("{}\nfn main_() {{\n{}}}\nmain_();\n", PRELUDE, body) };
+                let source = if two_runs {
+                    let discard = match root {
+                        "variable_of_frame_discarded_by_uncaught_error" => format!("fn holder_() {{ var kept = {}; root = || kept; throw \"discard\"; }}\nholder_();\n", build),
+                        "variable_of_frame_waiting_for_failed_fiber" => format!("fn holder_() {{ var kept = {}; root = || kept; Fiber.new(|| {{ throw \"discard\"; }}).call(); }}\nholder_();\n", build),
+                        _ => format!("var outer_ = Fiber.new(|| {{ var kept = {}; root = || kept; Fiber.new(|| {{ throw \"discard\"; }}).call(); }});\nouter_.call();\n", build),
+                    };
+                    let second = format!("garbage();\nvar junk = [[1], (2, 3), {{\"a\": 1}}, \"p\" + \"q\"];\nvar x = {};\ngarbage();\n{}\nprint(\"done\");\n", access, touch);
+                    format!("{}\nvar root = nil;\n{}{}{}", PRELUDE, discard, SNIPPET_SEPARATOR, second)
+                } else if root == "global" {
+                    format!("{}\n{}", PRELUDE, body)
+                } else {
+                    format!("{}\nfn main_() {{\n{}}}\nmain_();\n", PRELUDE, body)
+                };
                 let mut edges: Vec<String> = chain.iter().map(|hi| hs[*hi].name.to_string()).collect();
                 edges.push(format!("->{}", r.name));
                 out.push(Shape {
@@ -209,18 +229,23 @@ fn shapes(max_chain: usize) -> Vec<Shape> {
 /// the heap-shape programs with holder chains of length <= 1 (for C10: the build configurations differ
 /// most in when collections happen)
 pub fn shape_sources_for_c10() -> Vec<String> {
-    shapes(1).into_iter().filter(|s| !s.abandoned_fiber).map(|s| s.source).collect()
+    shapes(1).into_iter().filter(|s| !s.abandoned_fiber && !s.source.contains(SNIPPET_SEPARATOR)).map(|s| s.source).collect()
 }
 
 fn run_with(runner: &mut Runner, src: &str, gc: GcSpec) -> (Obs, Option<SnippetResult>, Vec<String>, usize) {
     run_with_modules(runner, src, &BTreeMap::new(), gc)
 }
 
+/// separates the runs of a program that is fed to one interpreter in several pieces
+const SNIPPET_SEPARATOR: &str = "\u{1}next run on the same interpreter\u{1}\n";
+
 fn run_with_modules(runner: &mut Runner, src: &str, modules: &BTreeMap<String, String>, gc: GcSpec) -> (Obs, Option<SnippetResult>, Vec<String>, usize) {
-    let mut req = Request { op: "run".into(), snippets: vec![src.to_string()], modules: modules.clone(), gc: Some(gc), fuel: Some(3_000_000), want: vec!["uaf".into(), "heap".into()], ..Default::default() };
+    let snippets: Vec<String> = src.split(SNIPPET_SEPARATOR).map(|s| s.to_string()).collect();
+    let mut req = Request { op: "run".into(), snippets, modules: modules.clone(), gc: Some(gc), fuel: Some(3_000_000), want: vec!["uaf".into(), "heap".into()], ..Default::default() };
     let obs = runner.call(&mut req);
     let (res, uaf, allocs) = match obs.resp() {
-        Some(r) => (r.results.get(0).cloned(), r.uaf.clone(), r.allocs),
+        // the last run is the one that is compared (earlier ones end in the uncaught error they are meant to)
+        Some(r) => (r.results.last().cloned(), r.uaf.clone(), r.allocs),
         None => (None, vec![], 0),
     };
     (obs, res, uaf, allocs)
@@ -311,7 +336,7 @@ pub fn run(ctx: &Ctx) -> Report {
                 }
                 None => acc.violations.push((
                     format!("[{}] under collect-at-every-allocation: {} use-after-free events {:?}; output {:?} vs never-collect output {:?}", s.describe, uaf.len(), uaf.iter().take(3).collect::<Vec<_>>(), always.as_ref().map(|r| (&r.out, &r.outcome)), never.as_ref().map(|r| &r.out)),
-                    json!({"shape": s.describe, "request": {"op": "run", "snippets": [s.source], "gc": {"mode": "default", "quarantine": true}, "want": ["uaf"]}, "uaf": uaf, "observed": always, "never_collect_run": never}),
+                    json!({"shape": s.describe, "request": {"op": "run", "snippets": s.source.split(SNIPPET_SEPARATOR).collect::<Vec<_>>(), "gc": {"mode": "default", "quarantine": true}, "want": ["uaf"]}, "uaf": uaf, "observed": always, "never_collect_run": never}),
                 )),
             }
         }
@@ -417,7 +442,7 @@ pub fn run(ctx: &Ctx) -> Report {
     report.cov("traces_validated_against_impl", json!(acc.runs));
     report.cov("distinct_nontrivial", json!(n_shapes + n_corpus));
     report.cov("exhaustive", json!(true));
-    report.cov("rule", json!("programs: every heap-shape program root -> holder chain (length <= 2 over 23 holder kinds: vec/tuple element, map key, map value, field, captured variable, bound-method receiver, iterators, map adapter, suspended fiber local, method and static-method captures, error context, superclass link, open variable of an abandoned fiber, and six kinds of transient interpreter state - a return waiting for a finally block, an exception in flight through a finally block, a fiber call argument, a yielded and resumed value, an operand of an unfinished literal, an argument of an unfinished call) -> referent (20 kinds), the root being a global, a local or a closed variable; after construction every other reference is dropped, garbage of six kinds is allocated, the referent is reached through the chain and touched in every way its kind allows; plus the C05/C06/C07/C08/C18 generator corpora and the C14 (modules) and C17 (error paths through every call link) corpora with their module tables. schedules: never (comparison), always (collect at every allocation, swept objects quarantined and every later touch reported), only{i} for every allocation index of the small programs (all pairs in the thorough tier). oracle: no use-after-free event, no object swept while borrowed, output identical to the never-collect run."));
+    report.cov("rule", json!("programs: every heap-shape program root -> holder chain (length <= 2 over 23 holder kinds: vec/tuple element, map key, map value, field, captured variable, bound-method receiver, iterators, map adapter, suspended fiber local, method and static-method captures, error context, superclass link, open variable of an abandoned fiber, and six kinds of transient interpreter state - a return waiting for a finally block, an exception in flight through a finally block, a fiber call argument, a yielded and resumed value, an operand of an unfinished literal, an argument of an unfinished call) -> referent (20 kinds), the root being a global, a local, a closed variable, or - with one interpreter and two runs - a variable of a frame that an uncaught error discarded in the first run (the frame that threw, a frame or a fiber that was waiting for the fiber that threw), reached in the second run through an escaped closure; after construction every other reference is dropped, garbage of six kinds is allocated, the referent is reached through the chain and touched in every way its kind allows; plus the C05/C06/C07/C08/C18 generator corpora and the C14 (modules) and C17 (error paths through every call link) corpora with their module tables. schedules: never (comparison), always (collect at every allocation, swept objects quarantined and every later touch reported), only{i} for every allocation index of the small programs (all pairs in the thorough tier). oracle: no use-after-free event, no object swept while borrowed, output identical to the never-collect run."));
     report.cov("bounds", json!({"chain_length": 2, "only_i_for_program_allocations_up_to": 80, "pairs_for_program_allocations_up_to": if thorough { 40 } else { 0 }}));
     report.cov("heap_shape_programs", json!(n_shapes));
     report.cov("corpus_programs", json!(n_corpus));
